@@ -26,6 +26,7 @@ var props = []PropSpec{
 		ID: "C00", Pkg: "./c00", ReplayPkg: "./cmd/rc00", Level: "model_checking",
 		Harnesses: []HarnessSpec{
 			{Func: "Check_Arith", Reach: []string{"big", "small"}},
+			{Func: "Check_StdModels", Reach: []string{"models"}},
 		},
 	},
 	{
